@@ -166,6 +166,15 @@ impl ADict {
 
     /// Builds the real dictionary (system part + optional user lexicon).
     pub fn build(&self) -> vibrato::errors::Result<Dictionary> {
+        let dict = self.build_system()?;
+        match &self.user {
+            Some(u) => dict.reset_user_lexicon_from_reader(Some(Self::render_lex(u).as_bytes())),
+            None => Ok(dict),
+        }
+    }
+
+    /// Builds the system part only.
+    pub fn build_system(&self) -> vibrato::errors::Result<Dictionary> {
         let lex = Self::render_lex(&self.lex);
         let chr = self.render_char_def();
         let unk = self.render_unk();
@@ -187,10 +196,7 @@ impl ADict {
                 )?
             }
         };
-        match &self.user {
-            Some(u) => dict.reset_user_lexicon_from_reader(Some(Self::render_lex(u).as_bytes())),
-            None => Ok(dict),
-        }
+        Ok(dict)
     }
 
     fn words_json(ws: &[AWord]) -> Value {
